@@ -187,3 +187,60 @@ def pool_map(jobs, workers=6, chunk=12):
         for r in ex.map(run_many, chunks):
             out.extend(r)
     return out
+
+
+# ---------------------------------------------------------------------------
+# multi-module runs through the command-line path (prepare_constructor_kwargs + _run)
+
+def run_multi(job):
+    """job = {"modules": {name: text}, "toml": str, "settings_off": [code names], "tag": str}
+    Writes the modules into a fresh directory on sys.path and checks them together the way the CLI does
+    (NameCheckVisitor._run builds the ClassAttributeChecker and runs the final checks itself).
+    -> {"out": [[module, code, line, col]], "error": str|None}"""
+    from pyanalyze.error_code import ErrorCode
+    from pyanalyze.name_check_visitor import NameCheckVisitor
+
+    tmp = tempfile.mkdtemp(prefix="c11multi_")
+    names = list(job["modules"])
+    try:
+        sys.path.insert(0, tmp)
+        files = []
+        for n, text in job["modules"].items():
+            p = os.path.join(tmp, n + ".py")
+            with open(p, "w", encoding="utf-8") as fh:
+                fh.write(text)
+            files.append(p)
+        cfgp = os.path.join(tmp, "pyproject.toml")
+        with open(cfgp, "w") as fh:
+            fh.write(job["toml"])
+        settings = {getattr(ErrorCode, c): False for c in job.get("settings_off", ())}
+        settings.update({getattr(ErrorCode, c): True for c in job.get("settings_on", ())})
+        with contextlib.redirect_stdout(io.StringIO()), contextlib.redirect_stderr(io.StringIO()):
+            kwargs = NameCheckVisitor.prepare_constructor_kwargs(
+                {"files": files, "config_file": Path(cfgp), "settings": settings, "assert_passes": False})
+            failures = NameCheckVisitor._run(**kwargs)
+        out = []
+        for f in failures or []:
+            code = f.get("code")
+            out.append([os.path.basename(f["filename"])[:-3], getattr(code, "name", None), f.get("lineno") or 0, f.get("col_offset") or 0])
+        return {"out": out, "error": None}
+    except BaseException:
+        import traceback
+
+        return {"out": [], "error": "crash: " + traceback.format_exc()[-1200:]}
+    finally:
+        if tmp in sys.path:
+            sys.path.remove(tmp)
+        for n in names:
+            sys.modules.pop(n, None)
+        shutil.rmtree(tmp, ignore_errors=True)
+
+
+def pool_map_fn(fn, jobs, workers=6):
+    import concurrent.futures as cf
+    import multiprocessing as mp
+
+    if len(jobs) <= 2:
+        return [fn(j) for j in jobs]
+    with cf.ProcessPoolExecutor(max_workers=workers, mp_context=mp.get_context("fork")) as ex:
+        return list(ex.map(fn, jobs, chunksize=2))
